@@ -221,12 +221,12 @@ theorem get_of_not_mem {t : MetaTable} (h : MetaInv t) (cast : CastFn) {r : ResR
 theorem get_of_mem {t : MetaTable} (h : MetaInv t) (cast : CastFn) {r : ResRef}
     (hm : r.ty ∈ t.tys) :
     t.get cast r =
-      if cast r.ty r.addr = r.addr then .some ⟨r.addr, r.ty⟩ else .panic .badCast := by
+      if (cast r.ty r.addr).addr = r.addr then .some (cast r.ty r.addr) else .panic .badCast := by
   obtain ⟨i, hi⟩ := (h.mem_iff r.ty).mp hm
   have hget := (h.idx r.ty i).mp hi
   unfold MetaTable.get
   simp only [hi, h.vt, hget, attachVtable]
-  by_cases hc : cast r.ty r.addr = r.addr
+  by_cases hc : (cast r.ty r.addr).addr = r.addr
   · simp [hc]
   · simp [hc]
 
@@ -268,8 +268,8 @@ theorem nextFrom_hit (cast : CastFn) (tys : List Nat) (excl : Bool) (i : Nat) (w
       match Shred.tryBorrow c.borrow excl with
       | none => ⟨w, i + pre.length + 1, .panic .borrowed⟩
       | some b' =>
-        if cast ty c.addr = c.addr then
-          ⟨w.set ty (some { c with borrow := b' }), i + pre.length + 1, .item ⟨c.addr, ty⟩⟩
+        if (cast ty c.addr).addr = c.addr then
+          ⟨w.set ty (some { c with borrow := b' }), i + pre.length + 1, .item (cast ty c.addr)⟩
         else ⟨w, i + pre.length + 1, .panic .badCast⟩ := by
   rw [hd, nextFrom_skip cast tys excl pre (ty :: rest) i w hpre]
   have hidx : tys[i + pre.length]? = some ty := by
@@ -281,7 +281,7 @@ theorem nextFrom_hit (cast : CastFn) (tys : List Nat) (excl : Bool) (i : Nat) (w
   | none => rfl
   | some b' =>
     simp only []
-    by_cases hcast : cast ty c.addr = c.addr
+    by_cases hcast : (cast ty c.addr).addr = c.addr
     · simp [hcast]
     · simp [hcast]
 
@@ -349,17 +349,17 @@ theorem getElem?_of_drop_cons {l : List Nat} {i x : Nat} {rest : List Nat}
   simpa using this
 
 /-- The whole loop, from any position: if every remaining registered cell that is present can be
-borrowed and has an address-preserving cast, the loop ends with `None`, having produced one item
+borrowed and has an address-preserving cast (whatever vtable it attaches), the loop ends with `None`, having produced one item
 per present remaining type, in table order, and having borrowed exactly those cells. -/
 theorem collectN_spec (cast : CastFn) (t : MetaTable) (excl : Bool) (hvt : t.vtableFns = t.tys) :
     ∀ (rest : List Nat) (i : Nat) (w : MWorld) (acc : List TraitPtr) (fuel : Nat),
       t.tys.drop i = rest → rest.length < fuel → rest.Nodup →
       (∀ ty ∈ rest, ∀ c, w.cell ty = some c →
-        (Shred.tryBorrow c.borrow excl).isSome ∧ cast ty c.addr = c.addr) →
+        (Shred.tryBorrow c.borrow excl).isSome ∧ (cast ty c.addr).addr = c.addr) →
       (collectN cast t excl fuel w i acc).panic = none ∧
       (collectN cast t excl fuel w i acc).index = i + rest.length ∧
       (collectN cast t excl fuel w i acc).items =
-        acc ++ (rest.filter w.present).map (fun ty => ⟨addrOf w ty, ty⟩) ∧
+        acc ++ (rest.filter w.present).map (fun ty => cast ty (addrOf w ty)) ∧
       ∀ k, (collectN cast t excl fuel w i acc).world.cell k =
         if k ∈ rest then (w.cell k).map (borrowCell excl) else w.cell k := by
   intro rest
@@ -400,7 +400,7 @@ theorem collectN_spec (cast : CastFn) (t : MetaTable) (excl : Bool) (hvt : t.vta
       have hidx : t.tys[i]? = some ty := getElem?_of_drop_cons hd
       have hstep : collectN cast t excl (n + 1) w i acc =
           collectN cast t excl n (w.set ty (some { c with borrow := b' })) (i + 1)
-            (acc ++ [⟨c.addr, ty⟩]) := by
+            (acc ++ [cast ty c.addr]) := by
         rw [collectN_succ, hd]
         simp only [nextFrom, hc, hvt, hidx, hb', attachVtable, hcast, if_true]
       rw [hstep]
@@ -408,7 +408,7 @@ theorem collectN_spec (cast : CastFn) (t : MetaTable) (excl : Bool) (hvt : t.vta
       have hcell' : ∀ k, k ≠ ty → (w.set ty (some { c with borrow := b' })).cell k = w.cell k := by
         intro k hk; simp [MWorld.set_cell, hk]
       obtain ⟨h1, h2, h3, h4⟩ := ih (i + 1) (w.set ty (some { c with borrow := b' }))
-        (acc ++ [⟨c.addr, ty⟩]) n hd' (by simp at hf; omega) hnd'
+        (acc ++ [cast ty c.addr]) n hd' (by simp at hf; omega) hnd'
         (fun x hx c' hc' => by
           have hne : x ≠ ty := fun e => hty (e ▸ hx)
           rw [hcell' x hne] at hc'
